@@ -639,7 +639,19 @@ pub async fn closure(c: &mut Cluster, mode: super::menu::Closure) -> Res<Vec<Eve
         Closure::Recover(max_steps) => {
             // faults stop: every node that is down comes back
             let down: Vec<u32> = c.slots.iter().filter(|(_, s)| matches!(s, Slot::Down(_))).map(|(i, _)| *i).collect();
-            if c.election.is_none() {
+            // an election that is in flight when the faults stop is answered first (the harness
+            // carries one election at a time and cannot start nodes in the middle of it)
+            for _ in 0..8 {
+                let Some(el) = &c.election else { break };
+                if c.stuck.is_some() {
+                    break;
+                }
+                let ev = Event::Vote(el.peers[el.answered.len()], VoteAns::Deliver);
+                c.apply(&ev).await?;
+                check_global(c).await;
+                done.push(ev);
+            }
+            if c.election.is_none() && c.stuck.is_none() {
                 for id in down {
                     let ev = Event::Restart(id);
                     c.apply(&ev).await?;
@@ -676,13 +688,20 @@ pub async fn closure(c: &mut Cluster, mode: super::menu::Closure) -> Res<Vec<Eve
                             write_id = Some(c.clients.len());
                             Event::ClientWrite(l, super::cluster::Op::Put("recovery".into(), "probe".into()))
                         }
-                        // timed runs: the next timer fires; untimed runs: the leader's heartbeat
-                        // timer, or - without a leader - the election timer of the lowest node
-                        _ if c.opts.timed => Event::Tick,
+                        // timed runs with a live leader: the next timer fires. Untimed runs: the
+                        // leader's heartbeat timer. Without a live leader (both modes): an
+                        // election timer - see below for which one
+                        (Some(_), _) if c.opts.timed => Event::Tick,
                         (Some(l), _) => Event::Heartbeat(l),
                         (None, _) => {
-                            // election timers are randomised in reality: every node gets its
-                            // turn to time out first (round robin over the closure's timeouts)
+                            // election timers are randomised in reality, so any live node may
+                            // be the next one to time out. (Letting the timers fire in the fixed
+                            // order of the simulation's per-node offsets instead is not a fair
+                            // schedule: a candidate with a stale log that always fires first
+                            // keeps out-bidding the others for ever - a candidate that refuses a
+                            // higher-term vote request keeps its own term, and a follower needs
+                            // two expiries to ask for votes - although with random timeouts the
+                            // better log gets its two turns in a row soon enough.)
                             let cands: Vec<u32> = c
                                 .last_views
                                 .values()
